@@ -327,7 +327,10 @@ def main(check: Check, argv=None):
         except Exception:
             ok, msg = False, "replay raised: " + traceback.format_exc()[-600:]
         if not ok:
-            harness_errors.append((fl["label"], msg, cex))
+            if (fl.get("detail") or {}).get("candidate_from_abstraction"):
+                inconclusive.append((fl["cfg"].get("name"), fl["label"], "candidate model of the FP abstraction did not reproduce and the bit-precise query timed out"))
+            else:
+                harness_errors.append((fl["label"], msg, cex))
             continue
         fid = check.finding_of(cex)
         if fid is not None and findings.get(fid, {}).get("status") == "open":
